@@ -309,15 +309,22 @@ def _run(case):
                       f"{getattr(attr, 'dtype', None)} {tuple(getattr(attr, 'shape', ()))}")
                 at = attr.detach().clone().numpy()
                 c["attr_cmp"] += 1
-                if deferred is None and not np.array_equal(at, sp):
-                    w = np.argwhere(at != sp)
-                    deferred = Violation(
-                        "spike_attr:mismatch",
-                        f"{what}: neuron.spike != spikes returned by forward at {len(w)} of {numel} positions, first "
-                        f"{w[0].tolist()}: attribute {bool(at[tuple(w[0])])}, returned {bool(sp[tuple(w[0])])} "
-                        f"(refrac_t={case['refrac_t']}, dt={case['dt']})",
-                        {"refrac_t": case["refrac_t"], "step": si, "positions": int(len(w))},
-                    )
+                if not np.array_equal(at, sp):
+                    n_tf, n_ft = int((at & ~sp).sum()), int((~at & sp).sum())
+                    if deferred is None:
+                        w = np.argwhere(at != sp)
+                        deferred = Violation(
+                            "spike_attr:mismatch",
+                            f"{what}: neuron.spike != spikes returned by forward at {len(w)} of {numel} positions, "
+                            f"first {w[0].tolist()}: attribute {bool(at[tuple(w[0])])}, returned {bool(sp[tuple(w[0])])} "
+                            f"(refrac_t={case['refrac_t']}, dt={case['dt']})",
+                            {"refrac_t": case["refrac_t"], "first_step": si, "steps": 0,
+                             "attr_true_returned_false": 0, "attr_false_returned_true": 0},
+                        )
+                    # totals over the whole trajectory (the known finding is the all-True direction only)
+                    deferred.info["steps"] += 1
+                    deferred.info["attr_true_returned_false"] += n_tf
+                    deferred.info["attr_false_returned_true"] += n_ft
 
             # ---- bookkeeping for the non-trivial rule
             supra = decisive_supra = (vin - th) > ref.tol(sc_in) + thtol
